@@ -1313,8 +1313,24 @@ impl<'t, 'c> Gen<'t, 'c> {
         if pos <= 1 && self.t.chance(2, 3) {
             body.push(self.tok("a"));
         }
-        match self.t.choose(10) {
+        match self.t.choose(14) {
             0 => body,
+            10 | 11 | 12 | 13 => {
+                // loops whose counter moves FIRST: the (failing) statement can be the last one of the body, directly
+                // in front of the loop's closing line and its condition
+                let c = self.fresh_counter(Ty::Int);
+                let mut bd = vec![Stmt::Assign(c.clone(), b(BinOp::Add, ld(&c), lit_i(1)))];
+                bd.extend(body);
+                let init = Stmt::Assign(c.clone(), lit_i(0));
+                let lp = match self.t.choose(5) {
+                    0 => Stmt::Do { kind: DoKind::BottomWhile, cond: b(BinOp::Lt, ld(&c), lit_i(2)), body: bd },
+                    1 => Stmt::Do { kind: DoKind::BottomUntil, cond: b(BinOp::Ge, ld(&c), lit_i(2)), body: bd },
+                    2 => Stmt::While { cond: b(BinOp::Lt, ld(&c), lit_i(2)), body: bd },
+                    3 => Stmt::Do { kind: DoKind::TopUntil, cond: b(BinOp::Ge, ld(&c), lit_i(2)), body: bd },
+                    _ => Stmt::Do { kind: DoKind::TopWhile, cond: b(BinOp::Lt, ld(&c), lit_i(2)), body: bd },
+                };
+                vec![init, lp]
+            }
             1 => vec![Stmt::If { arms: vec![(lit_i(-1), body)], else_: None }],
             7 => {
                 // the block is followed by an ELSE block that must not run
